@@ -12,6 +12,7 @@ let dispatch kind args =
   | "foldbin" | "foldun" | "litfalsy" -> C01.run kind args
   | "wffn" -> C05.run kind args
   | "callbind" -> C14.run kind args
+  | "unpack" | "shiftlines" -> C16.run kind args
   | _ -> failwith ("unknown kind " ^ kind)
 
 let () =
